@@ -1,6 +1,7 @@
 package main
 
 import (
+	"crypto/sha256"
 	"fmt"
 	"go/token"
 	"go/types"
@@ -867,6 +868,15 @@ func (in *Interp) mapFind(m *Map, k Value) *mapEntry {
 		if e, hit := m.index[ks]; hit && !e.deleted {
 			return e
 		}
+		if m.lazy != "" {
+			// adversary-controlled map: any key that is looked up is present with a free digest value
+			d := in.freeDigest(m.lazy + "[" + in.lazyKeyName(k) + "]")
+			e := &mapEntry{k: copyVal(k), v: d, kstr: ks}
+			m.index[ks] = e
+			m.entries = append(m.entries, e)
+			m.live++
+			return e
+		}
 		if m.symKeys == 0 {
 			return nil
 		}
@@ -921,7 +931,59 @@ func (in *Interp) mapDelete(m *Map, k Value) {
 }
 
 func (in *Interp) mapLen(m *Map) Value {
+	if m.lazy != "" {
+		return in.tt.Const(64, uint64(m.lazySize))
+	}
 	return in.tt.Const(64, uint64(m.live))
+}
+
+// lazyKeyName renders a concrete map key for input naming (strings as is, byte arrays as hex).
+func (in *Interp) lazyKeyName(k Value) string {
+	switch k := k.(type) {
+	case string:
+		return k
+	case Array:
+		var sb strings.Builder
+		for _, b := range k {
+			fmt.Fprintf(&sb, "%02x", b.(*Term).Val)
+		}
+		return sb.String()
+	}
+	return fmt.Sprint(k)
+}
+
+// freeDigest creates a free value of the digest sort as a []byte slice (input kind "digest").
+func (in *Interp) freeDigest(name string) Value {
+	name = in.newInputName(name)
+	if in.hashLen == 0 {
+		in.unsupported("free digest before rt.SetDigestLen")
+	}
+	if in.cfg.Concrete != nil {
+		var raw []byte
+		if iv, ok := in.cfg.Concrete[name]; ok {
+			memo, _ := in.scratch["digestMemo"].(map[string][]byte)
+			if memo == nil {
+				memo = map[string][]byte{}
+				in.scratch["digestMemo"] = memo
+			}
+			raw = evalDigestExprL(iv.Value, in.hashLen, func(n string) (string, bool) {
+				v, ok := in.cfg.Concrete[n]
+				return v.Value, ok
+			}, memo)
+		} else {
+			s := sha256.Sum256([]byte("fresh:" + name))
+			raw = s[:in.hashLen]
+		}
+		ts := make([]*Term, in.hashLen)
+		for i := range ts {
+			ts[i] = in.tt.byteC[raw[i]]
+		}
+		return in.bytesToSlice(ts)
+	}
+	d := in.tt.Var(smtName(name)+"_D", DSort)
+	inp := &Input{Name: name, Kind: "digest", T: []*Term{d}}
+	in.digestInputs = append(in.digestInputs, inp)
+	return in.bytesToSlice(in.digestBytes(d))
 }
 
 func (in *Interp) lookup(instr *ssa.Lookup, x, idx Value) Value {
@@ -999,6 +1061,9 @@ func (in *Interp) rangeIter(x Value, t types.Type) iterator {
 	switch x := x.(type) {
 	case *Map:
 		mt := t.Underlying().(*types.Map)
+		if x != nil && x.lazy != "" {
+			in.unsupported("range over an adversary-controlled (lazy) map")
+		}
 		return &mapIter{m: x, keyT: mt.Key(), valT: mt.Elem()}
 	case string:
 		return &strIter{s: x}
